@@ -120,6 +120,9 @@ func VX_C03_Frame(args []int) {
 	vxAssert(route.calls <= 1 && proute.calls <= 1, "registered handler at most once")
 	n := conn.nWrites()
 	vxAssert(n <= 1, "never answered twice")
+	for _, st := range []string{"PostReadCallHeader", "PreReadCallBody", "PostReadCallBody", "PreWriteReply", "PostWriteReply"} {
+		vxAssert(vxCount(log, "rec:"+st) <= 1, "[C09] each hook fires at most once per stage for one message: "+st)
+	}
 	if isCall {
 		vxCover("c03.call")
 		if writeFail == 0 {
